@@ -181,9 +181,13 @@ fn check_offset_case(c: &OffCase) -> Result<(), String> {
     let sg = if c.off_h < 0 || (c.off_h == 0 && c.off_m < 0) { -1 } else { 1 };
     let off = time::UtcOffset::from_hms(c.off_h, sg * c.off_m.abs(), sg * c.off_s.abs()).map_err(|e| format!("harness: {e}"))?;
     let odt = time::PrimitiveDateTime::new(date, tm).assume_offset(off);
-    let utc = odt.to_offset(time::UtcOffset::UTC);
+    // at the very ends of the `time` crate's range the UTC reading may not be representable at all
+    // (then it is certainly not a DOS year)
     let wall = (odt.year(), u8::from(odt.month()), odt.day(), odt.hour(), odt.minute(), odt.second());
-    let univ = (utc.year(), u8::from(utc.month()), utc.day(), utc.hour(), utc.minute(), utc.second());
+    let univ = match odt.checked_to_offset(time::UtcOffset::UTC) {
+        Some(utc) => (utc.year(), u8::from(utc.month()), utc.day(), utc.hour(), utc.minute(), utc.second()),
+        None => (i32::MAX, 0, 0, 0, 0, 0),
+    };
     let ok_y = |y: i32| (1980..=2107).contains(&y);
     let r = crate::util::catch(|| DateTime::try_from(odt)).map_err(|p| format!("try_from({odt}) panicked: {p}"))?;
     match r {
@@ -518,7 +522,7 @@ pub fn run(ctx: &mut Ctx) {
         "cal_offsets",
         n,
         &|| {
-            let y = prop_oneof![2 => Just(1979i32), 3 => Just(1980), 3 => Just(2107), 2 => Just(2108), 2 => 1970i32..=2120, 1 => Just(2), 1 => Just(9998)];
+            let y = prop_oneof![2 => Just(1979i32), 3 => Just(1980), 3 => Just(2107), 2 => Just(2108), 2 => 1970i32..=2120, 1 => Just(2), 1 => Just(9998), 1 => Just(1), 1 => Just(9999), 1 => Just(-9999), 1 => Just(0)];
             let md = prop_oneof![3 => Just((1u8, 1u8)), 3 => Just((12u8, 31u8)), 1 => Just((2u8, 29u8)), 2 => (1u8..=12, 1u8..=31)];
             let hms = prop_oneof![2 => Just((0u8, 0u8, 0u8)), 2 => Just((23u8, 59u8, 59u8)), 1 => (0u8..=1, 0u8..=59, 0u8..=59), 1 => (22u8..=23, 0u8..=59, 0u8..=59), 2 => (0u8..=23, 0u8..=59, 0u8..=59)];
             let off = prop_oneof![1 => Just((0i8, 0i8, 0i8)), 3 => (-23i8..=23, 0i8..=59, Just(0i8)), 1 => (-23i8..=23, 0i8..=59, 0i8..=59), 2 => prop_oneof![Just((1i8, 0i8, 0i8)), Just((-1, 0, 0)), Just((0, 1, 0)), Just((0, -1, 0)), Just((14, 0, 0)), Just((-12, 0, 0)), Just((5, 30, 0)), Just((23, 59, 59)), Just((-23, 59, 59))]];
